@@ -281,7 +281,7 @@ def distribution_case(rng, shape=None):
         terms = {'D1': [['1', 0.5], ['2', 0.5]], 'D2': [['11', 0.5], ['22', 0.5]]}
     else:
         base = [['A3', 0.5], ['D2', 0.3], ['O1D1', 0.2]]
-        terms = {'A3': [['abc', 0.35], ['dog', 0.35], ['fox', 0.3]], 'C3': [['LLL', 0.5], ['ULL', 0.5]], 'D2': [['12', 0.4], ['34', 0.4], ['56', 0.2]],
+        terms = {'A3': [['abc', 0.35], ['d\xe9g', 0.35], ['fox', 0.3]], 'C3': [['LLL', 0.5], ['ULL', 0.5]], 'D2': [['12', 0.4], ['34', 0.4], ['56', 0.2]],
                  'O1': [['!', 0.5], ['#', 0.5]], 'D1': [['7', 0.6], ['8', 0.4]]}
     return {'spec': {'encoding': 'utf-8', 'uuid': 'dist-%08x' % rng.getrandbits(32), 'base': base, 'prince': [], 'terms': terms, 'omen': None}, 'distribution': True,
             'n': 6000, 'hseed': rng.getrandbits(32)}
@@ -324,6 +324,20 @@ def check_distribution(run, case):
                 if abs(zscore) > 7:
                     run.violation(f'{mode} -n {N_}: {w!r} has probability {p_:.4f} under the ruleset but was drawn {got.get(w, 0)} times ({got.get(w, 0) / N_:.4f}; {zscore:+.1f} standard deviations)',
                                   case, observed={w_: round(got.get(w_, 0) / N_, 4) for w_ in sorted(exact)}, expected={w_: round(p2, 4) for w_, p2 in sorted(exact.items())}); return
+        # the same two modes through the command line with a standard output in a legacy code page (the words hold a Latin-1 letter): every line, decoded the way
+        # the consumer was told, is a word of the ruleset
+        for mode in ('random_walk', 'honeywords'):
+            for oenc in ('latin-1', 'cp1252'):
+                out, err, rc, to = cli.run_cli('pcfg_guesser.py', ['-r', name, '-s', sn, '-m', mode, '-n', '80'], stdin_mode='eof', timeout=60, max_out=1 << 20,
+                                               env={'PYTHONIOENCODING': oenc})
+                run.ev('cli_runs'); run.ev('random_mode_runs_with_a_legacy_stdout')
+                if to:
+                    continue
+                lines = out.decode(oenc, 'replace').split('\n')[:-1] if out else []
+                foreign = [w for w in lines if w not in exact]
+                if foreign or len(lines) != 80:
+                    run.violation(f'pcfg_guesser.py -m {mode} -n 80 with a {oenc} standard output: {len(lines)} lines, {len(foreign)} of them are not words of the ruleset: {foreign[:4]}', case,
+                                  observed=foreign[:6]); return
         run.case(h(['distribution', case['spec']['base'], case['spec']['terms']]))
     finally:
         session.drop_session(sn)
